@@ -37,11 +37,20 @@ Fixpoint validate_all (cls inst : attrs) (l : list inv) : vres :=
   | i :: t => match eval_inv cls inst i with VTrue => validate_all cls inst t | r => r end
   end.
 
+(* richer method bodies: besides assignments through self, changes of the state that no __setattr__ sees (self.__dict__[n] = v, or an
+   in-place change such as self.items.append(..): stored, not validated) and calls of another method through self (a nested patched
+   method: validated at its entry and at its exit; its body: stores that are raw or go through __setattr__, then raise or return) *)
+Definition iitem := (bool * (string * value))%type.            (* (raw?, (name, value)) *)
+Inductive bitem :=
+| BSet (n : string) (v : value)
+| BRaw (n : string) (v : value)
+| BInner (items : list iitem) (raises : bool).
 Inductive iop :=
 | OSet (n : string) (v : value)                                   (* obj.n = v *)
 | OCall (sets : list (string * value)) (raises : bool) (ret : Z)  (* an instance method: assignments through self, then raise or return *)
 | OStatic (ret : Z)                                               (* static / class method, property or plain attribute read *)
-| OSwitch (enable : bool).                                        (* deal.enable() / deal.disable() *)
+| OSwitch (enable : bool)                                         (* deal.enable() / deal.disable() *)
+| OCallB (body : list bitem) (raises : bool) (ret : Z).          (* an instance method with a richer body (see bitem) *)
 Inductive outcome := Ok (ret : value) | InvError | Exc (c : string).
 Definition of_vres (r : vres) : option outcome := match r with VTrue => None | VFalse => Some InvError | VRaise c => Some (Exc c) end.
 
@@ -55,6 +64,33 @@ Fixpoint run_sets (cls : attrs) (invs : list inv) (s : istate) (l : list (string
   | [] => (s, None)
   | (n, v) :: t => let s1 := set_attr s n v in
                    match check cls invs s1 with Some o => (s1, Some o) | None => run_sets cls invs s1 t end
+  end.
+Fixpoint run_inner_items (cls : attrs) (invs : list inv) (s : istate) (l : list iitem) : istate * option outcome :=
+  match l with
+  | [] => (s, None)
+  | (raw, (n, v)) :: t => let s1 := set_attr s n v in
+                          if raw : bool then run_inner_items cls invs s1 t
+                          else match check cls invs s1 with Some o => (s1, Some o) | None => run_inner_items cls invs s1 t end
+  end.
+(* self.other(): not entered when an invariant is false; validated again when it returns; an exception leaves without validation *)
+Definition inner_call (cls : attrs) (invs : list inv) (s : istate) (items : list iitem) (raises : bool) : istate * option outcome :=
+  match check cls invs s with
+  | Some e => (s, Some e)
+  | None => match run_inner_items cls invs s items with
+            | (s1, Some e) => (s1, Some e)
+            | (s1, None) => if raises then (s1, Some (Exc "ValueError")) else (s1, check cls invs s1)
+            end
+  end.
+Fixpoint run_body (cls : attrs) (invs : list inv) (s : istate) (l : list bitem) : istate * option outcome :=
+  match l with
+  | [] => (s, None)
+  | BSet n v :: t => let s1 := set_attr s n v in
+                     match check cls invs s1 with Some o => (s1, Some o) | None => run_body cls invs s1 t end
+  | BRaw n v :: t => run_body cls invs (set_attr s n v) t
+  | BInner items raises :: t => match inner_call cls invs s items raises with
+                                | (s1, Some e) => (s1, Some e)
+                                | (s1, None) => run_body cls invs s1 t
+                                end
   end.
 Definition step (cls : attrs) (invs : list inv) (s : istate) (o : iop) : istate * outcome :=
   match o with
@@ -70,6 +106,15 @@ Definition step (cls : attrs) (invs : list inv) (s : istate) (o : iop) : istate 
       end
   | OStatic ret => (s, Ok (VInt ret))
   | OSwitch b => ({| s_inst := s_inst s; s_enabled := b |}, Ok VNone)
+  | OCallB body raises ret =>
+      match check cls invs s with
+      | Some e => (s, e)                                     (* not entered *)
+      | None => match run_body cls invs s body with
+                | (s1, Some e) => (s1, e)
+                | (s1, None) => if raises then (s1, Exc "ValueError")
+                                else (s1, match check cls invs s1 with Some e => e | None => Ok (VInt ret) end)
+                end
+      end
   end.
 Fixpoint run_history (cls : attrs) (invs : list inv) (s : istate) (h : list iop) : list (outcome * attrs) :=
   match h with
